@@ -133,4 +133,21 @@ def TokenShapedMembers : List (List StrItem × CST) → Prop
   | (_, x) :: ms => TokenShaped x ∧ TokenShapedMembers ms
 end
 
+/-! ## on values -/
+
+mutual
+/-- no object of the `Value` has the token as its first key in iteration order (the order `to_string` writes: sorted in
+    the default build, insertion order under `preserve_order`) -/
+def valueTokenFree : JV → Bool
+  | .arr xs => valuesTokenFree xs
+  | .obj kvs => (match kvs with | (k, _) :: _ => k != token | [] => true) && membersTokenFree kvs
+  | _ => true
+def valuesTokenFree : List JV → Bool
+  | [] => true
+  | x :: xs => valueTokenFree x && valuesTokenFree xs
+def membersTokenFree : List (Bytes × JV) → Bool
+  | [] => true
+  | (_, x) :: kvs => valueTokenFree x && membersTokenFree kvs
+end
+
 end SJ.Spec.PrivateToken
